@@ -19,8 +19,13 @@ const BEGIN_SIG: &str = "-----BEGIN PGP SIGNATURE-----";
 const END_SIG: &str = "-----END PGP SIGNATURE-----";
 
 fn gen_payload(r: &mut Rng) -> (Vec<String>, &'static str) {
-    match r.below(6) {
+    match r.below(7) {
         0 => (vec![], "empty"),
+        6 => {
+            // LF-terminated lines whose last character is a carriage return (a CRLF file signed as it is)
+            let v: Vec<String> = (0..r.range(1, 4)).map(|i| if i == 1 { "\r".to_string() } else { format!("Field{}: value {}\r", i, i) }).collect();
+            (v, "lines-ending-in-cr")
+        }
         1 => ((0..r.range(1, 3)).map(|_| String::new()).collect(), "blank-lines"),
         2 => {
             // look-alikes of the markers that need no dash-escaping
@@ -72,6 +77,8 @@ fn messages_lane(ctx: &mut Ctx, _idx: u64) {
             _ => format!("iQIzBAEBCAAdFiEE{}+/=", r.next() % 100000),
         })
         .collect();
+    // (signature lines of such a file end in a carriage return too: "the signature lines concatenated" keeps them)
+    let sig: Vec<String> = if pkind == "lines-ending-in-cr" && r.chance(1, 2) { sig.into_iter().map(|l| format!("{}\r", l)).collect() } else { sig };
     let mut lines: Vec<String> = vec![BEGIN_MSG.to_string()];
     lines.extend(headers.iter().cloned());
     lines.push(String::new());
